@@ -2,8 +2,8 @@
 
 Fault enumeration on top of the container driver K.  For every reachable file state (BFS over
 the valid operations) and every applicable rejection cause - duplicate kind, full table, absent
-kind, label too long / not cp1252 at the first, middle or last item, unsupported format, wrong
-object, comment too long / not cp1252, an unused slot between live blocks - through add_block,
+kind, label too long / not cp1252 at the first, middle or last item, unsupported format, a bare int as
+format, a block date beyond the 32-bit date field, wrong object, comment too long / not cp1252, an unused slot between live blocks - through add_block,
 replace_block and every setter, the failing call is executed (one failing call per history; two in
 thorough).  Oracle: if it raises, sha256(file) is unchanged, the in-memory table equals the disk
 table, and every continuation op yields the same canonical state as on the twin history without
@@ -63,6 +63,16 @@ def bad_block(t, cause, pos):
         b = specs.build(sp)
         b.format = specs.format_enum(t)(BADFORMAT[t])
         return b
+    if cause == "format_raw":
+        b = kdriver.make_block(t, 1)
+        b.format = int(b.format.value)
+        return b
+    if cause == "date_range":
+        import datetime
+
+        b = kdriver.make_block(t, 1)
+        setattr(b, ("creation_date", "last_modification_date")[pos], datetime.datetime(2040, 2, 3, 4, 5, 6))
+        return b
     raise ValueError(cause)
 
 
@@ -102,6 +112,9 @@ def fault_ops(cfg, model):
                         out.append(("bad", api, t, cause, pos))
             if t in BADFORMAT:
                 out.append(("bad", api, t, "format", 0))
+            out.append(("bad", api, t, "format_raw", 0))           # a bare int where a format enum member belongs
+            for pos in (0, 1):
+                out.append(("bad", api, t, "date_range", pos))     # creation / modification date beyond the 32-bit field
             if api != "set":
                 out.append(("bad", api, t, "comment_long", 0))
                 out.append(("bad", api, t, "comment_noncp", 0))
